@@ -46,19 +46,18 @@ func feeOK(f *bt.Fee) bool {
 	return f.MiningFee.Satoshis == 5 && f.MiningFee.Bytes == 100 && f.RelayFee.Satoshis == 5 && f.RelayFee.Bytes == 100
 }
 
+// per-goroutine statistics: no lock here, because a lock shared by the goroutines would order their accesses
+// (happens-before) and hide exactly the races this harness looks for
 type raceStats struct {
-	mu    sync.Mutex
 	reads int
 	bad   []string
 }
 
 func (s *raceStats) read(ok bool, what string) {
-	s.mu.Lock()
 	s.reads++
 	if !ok && len(s.bad) < 3 {
 		s.bad = append(s.bad, what)
 	}
-	s.mu.Unlock()
 }
 
 var epoch0 = time.Now().UTC().Add(-time.Hour)
@@ -178,7 +177,8 @@ func execVerdict(eng interpreter.Engine, c engCase) string {
 func raceChild(scenario string, seed uint64, g, procs int) string {
 	runtime.GOMAXPROCS(procs)
 	r := newRng(seed)
-	st := &raceStats{}
+	var all []*raceStats
+	newStats := func() *raceStats { s := &raceStats{}; all = append(all, s); return s }
 	iters := 300
 	parts := strings.Split(scenario, ":")
 	var wg sync.WaitGroup
@@ -194,6 +194,7 @@ func raceChild(scenario string, seed uint64, g, procs int) string {
 				m = b
 			}
 			base := i * 100000
+			st := newStats()
 			wg.Add(1)
 			go func() {
 				defer wg.Done()
@@ -222,6 +223,7 @@ func raceChild(scenario string, seed uint64, g, procs int) string {
 			for j, c := range cases {
 				mine[j] = engCase{parseDesc(descTx(c.tx)), c.idx, &bt.Output{Satoshis: c.prev.Satoshis, LockingScript: scr(append([]byte{}, *c.prev.LockingScript...))}}
 			}
+			st := newStats()
 			wg.Add(1)
 			go func() {
 				defer wg.Done()
@@ -230,6 +232,55 @@ func raceChild(scenario string, seed uint64, g, procs int) string {
 					j := (off*7 + k) % len(mine)
 					got := execVerdict(eng, mine[j])
 					st.read(got == want[j], fmt.Sprintf("case %d: concurrent=%s sequential=%s", j, got, want[j]))
+				}
+			}()
+		}
+	case "scripts":
+		// every opcode 0x4f..0xb9 on three random operands, in both eras, with the final stacks compared
+		type prog struct {
+			flags uint64
+			lock  []byte
+		}
+		var progs []prog
+		for op := 0x4f; op <= 0xb9; op++ {
+			for _, fl := range []uint64{0, uint64(fAfterGenesis)} {
+				var lock []byte
+				for k := 0; k < 3; k++ {
+					lock = append(lock, rawPush(r.bytes(1+r.n(40)))...)
+				}
+				if op == 0x7f || op == 0x80 || op == 0x98 || op == 0x99 { // SPLIT / NUM2BIN / shifts want a small count on top
+					lock = append(lock, rawPush([]byte{byte(r.n(8))})...)
+				}
+				progs = append(progs, prog{fl, append(lock, byte(op))})
+			}
+		}
+		show := func(p prog) string {
+			res := implExec(p.flags, nil, p.lock, "-", 0, 0, 1)
+			last := ""
+			if len(res.trace) > 0 {
+				last = res.trace[len(res.trace)-1]
+			}
+			return res.verdict + " " + last
+		}
+		want := make([]string, len(progs))
+		for i, p := range progs {
+			want[i] = show(p)
+		}
+		if g < 16 {
+			g = 16 // opcode handlers are short: many goroutines walking the programs in the same order overlap most
+		}
+		for i := 0; i < g; i++ {
+			off := i % 2
+			st := newStats()
+			wg.Add(1)
+			go func() {
+				defer wg.Done()
+				<-start
+				for k := 0; k < len(progs); k++ {
+					j := (off + k) % len(progs)
+					p := prog{progs[j].flags, append([]byte{}, progs[j].lock...)}
+					got := show(p)
+					st.read(got == want[j], fmt.Sprintf("opcode %#x: concurrent=%.60s sequential=%.60s", p.lock[len(p.lock)-1], got, want[j]))
 				}
 			}()
 		}
@@ -244,10 +295,19 @@ func raceChild(scenario string, seed uint64, g, procs int) string {
 	case <-time.After(120 * time.Second):
 		return "timeout (deadlock?)"
 	}
-	if len(st.bad) > 0 {
-		return "mismatch " + strings.ReplaceAll(strings.Join(st.bad, ";"), " ", "_")
+	reads := 0
+	var bad []string
+	for _, st := range all {
+		reads += st.reads
+		bad = append(bad, st.bad...)
 	}
-	return fmt.Sprintf("ok reads=%d", st.reads)
+	if len(bad) > 0 {
+		if len(bad) > 3 {
+			bad = bad[:3]
+		}
+		return "mismatch " + strings.ReplaceAll(strings.Join(bad, ";"), " ", "_")
+	}
+	return fmt.Sprintf("ok reads=%d", reads)
 }
 
 var raceFn = regexp.MustCompile(`^\s+(github\.com/libsv/go-bt/v2[^\s(]*\.[^\s]*)\(\)`)
@@ -333,6 +393,7 @@ func genC18(e *emitter, tier string, seed uint64) {
 			}
 		}
 		run("engine", c[0], c[1])
+		run("scripts", c[0], c[1])
 		if !quick {
 			run("engine", c[0]*2, c[1])
 		}
